@@ -20,7 +20,7 @@ P = {
    note=SAN + "text conventions from info/format.texi corrected by the pinned suite. " + TB, ref="3 C01"),
  "C02": dict(cat="exploration", tech="round-trip and representation-independence monitor (differential against the calendar oracle) + ASan/UBSan",
    text="Chains ymd>A>B>ymd through the tool's own output for all 42 ordered calendar pairs; every date specifier alone, in "
-        "random orders and after every other specifier, printed from 19 holders (parsed ymd/ywd/yd/ymcw/day numbers, results "
+        "random orders and after every other specifier, printed from 21 holders (parsed ymd/ywd/yd/ymcw/business-day dates/day numbers, results "
         "of dadd and dround) plus dseq's day counts over all days; every day of the Umm-al-Qura table, both directions. Judged against the "
         "calendar oracle, so two representations that agree but are both wrong are still caught.",
    note=SAN + "Hijri -> Gregorian goes through command-line arguments (-i hijri does not read stdin). " + TB, ref="3 C02"),
